@@ -100,14 +100,19 @@ fn run(args: &[String]) -> i32 {
         let mut c = yara_x::Compiler::new();
         if let Err(e) = c.add_source(src.as_str()) { eprintln!("c17m: generator produced a rejected source: {e}\n{src}"); return 2; }
         let rules = c.build();
+        // max_matches_per_pattern: default, or a small limit (0 and 1 included)
+        let limit: Option<usize> = if rng.chance(1, 3) { Some(*rng.pick(&[0usize, 1, 1, 2, 3])) } else { None };
+        if let Some(l) = limit { stats.inc(&format!("max_matches_{}", l)); }
         let obs = if single {
             let mut s = yara_x::Scanner::new(&rules);
             s.match_context_size(ctx);
+            if let Some(l) = limit { s.max_matches_per_pattern(l); }
             let r = s.scan(&blocks[0].1).unwrap();
             collect(&r)
         } else {
             let mut s = yara_x::blocks::Scanner::new(&rules);
             s.match_context_size(ctx);
+            if let Some(l) = limit { s.max_matches_per_pattern(l); }
             for (b, d) in &blocks { s.scan(*b, d).unwrap(); }
             let r = s.finish().unwrap();
             collect(&r)
